@@ -249,13 +249,18 @@ CLAIMED.update({
  'C08': dict(
     text='Machine-checked proofs (Lean 4): the set of states each FSM state class can decide - regenerated from the current statemachine.py by the '
          'translator (AST: every return of next / _master_next / _slave_next / _check_consistence / _check_closing along the class hierarchy, plus '
-         '"follows the Master state") - is accepted by the regenerated transition table, so no decision is refused forever (C08_decisions_accepted, '
-         'C08_decisions_complete, C08_who_follows_master), and the hand-written instance model decides exactly those states. Tie: global lock-step of '
-         'N real instances with the Lean cluster model; quiescence judge on the real cluster 24 quiet ticks after the last disturbance.',
+         '"follows the Master state") - is accepted by the regenerated transition table for every EXPLICIT decision (C08_decisions_accepted, '
+         'C08_decisions_complete, C08_who_follows_master), the follow-the-Master decisions the table refuses are exactly six pairs (C08_follow_master_refused), '
+         'and the hand-written instance model decides exactly those states; local progress theorems (a Slave leaves ELECTION behind its Master, the Master leaves '
+         'ELECTION, a Slave decides the state of its Master). Tie: global lock-step of N real instances with the Lean cluster model; quiescence judge on the real '
+         'cluster 24 quiet ticks after the last disturbance; and a free-running closed loop with processes, commanders and conflicts (harness/c16free.py) whose quiet '
+         'phase must leave nobody parked.',
     note='Partial: "returns to OPERATION within a bounded number of ticks" is a liveness claim under fair schedules: it is NOT proved; what is proved is '
          'the absence of the structural causes of parking (refused decisions); parking is searched for on the real cluster at quiescence (no-parking judge), '
          'which found and led to the repair of two defects (5a7047d: DISTRIBUTION->SYNCHRONIZATION and CONCILIATION->ELECTION were refused by the table '
-         'forever; e607c09: a Slave stayed in ELECTION forever once its Master was past DISTRIBUTION). The application-free cluster is explored. '
+         'forever; e607c09: a Slave stayed in ELECTION forever once its Master was past DISTRIBUTION). Known finding (free-running stage, the only place where CONCILIATION '
+         'is reached): a Slave that reaches DISTRIBUTION while its Master is in CONCILIATION stays parked there (DISTRIBUTION->CONCILIATION is not an edge; the repair is '
+         'forbidden by the existing test test_set_state_slave). The lock-step cluster is application-free. '
          'Trusted: tools/extract.py (G5), harness/c08.py, harness/cluster.py, Drv/Net.lean.',
     technique='Lean 4 proof over the regenerated decision/transition tables + global lock-step correspondence + quiescence judge on the real cluster',
     design='7 (C08)'),
